@@ -106,7 +106,9 @@ class C06(Prop):
         for i in range(n):
             r = rng.random()
             rule = rules[i % len(rules)]
-            if rule in ("approval", "sav") and r < 0.85:
+            if rng.random() < 0.06:
+                c = self._scale_case(rng, rule)
+            elif rule in ("approval", "sav") and r < 0.85:
                 if rule == "sav" and rng.random() < 0.4:
                     c = self._sav_tie(rng)
                 else:
@@ -125,6 +127,43 @@ class C06(Prop):
             elif rng.random() < 0.2:
                 case["grow"] = True
             yield case
+
+    @staticmethod
+    def _scale_case(rng, rule):
+        """structured large inputs: many tied winners, wide profiles with drawn pairwise contests, satisfaction scores
+        that differ by less than any float tolerance"""
+        kind = rng.choice(["tied", "wide", "harmonic"])
+        if rule == "sav" or kind == "harmonic":
+            # a: 1/s + 1/(s+2)   b: 2/(s+1)   (b smaller by 2 / (s (s+1) (s+2)))
+            s0 = rng.choice([20, 60, 150, 400])
+            A = list(range(1, s0 + 1))                     # contains a = 1
+            A2 = [1] + list(range(s0 + 1, 2 * s0 + 2))     # size s0 + 2, contains a
+            B = list(range(2 * s0 + 2, 3 * s0 + 3))        # size s0 + 1, contains b
+            alts = list(range(1, 3 * s0 + 3))
+            c = rng.choice([1, 1, 3])
+            return {"type": "toi", "alts": alts, "profile": [[[A], c], [[A2], c], [[B], 2 * c]]}
+        if kind == "tied":
+            # cyclic shifts: every alternative has the same score under every positional rule (m-way tie)
+            m = rng.choice([11, 12, 25, 40])
+            alts = list(range(1, m + 1))
+            weak = rule in ("plurality", "approval", "veto") and rng.random() < 0.4
+            if weak:
+                prof = [[[alts], rng.randint(1, 3)]]       # one class holding everything
+                return {"type": "toc", "alts": alts, "profile": prof}
+            prof = [[[[alts[(i + j) % m]] for j in range(m)], 1] for i in range(m)]
+            return {"type": "soc", "alts": alts, "profile": prof}
+        # wide: more than 30 alternatives, an even number of voters, every order paired with its reverse for part of
+        # the alternatives (drawn contests), one extra pair breaking the symmetry
+        m = rng.choice([31, 36, 40])
+        alts = list(range(1, m + 1))
+        base = gen.perm(rng, alts)
+        o2 = list(reversed(base))
+        o3 = gen.perm(rng, alts)
+        prof = [[[[a] for a in base], 1], [[[a] for a in o2], 1], [[[a] for a in o3], 1]]
+        o4 = [o3[1], o3[0]] + list(reversed(o3[2:]))
+        if o4 not in (base, o2, o3):
+            prof.append([[[a] for a in o4], 1])
+        return {"type": "soc", "alts": alts, "profile": prof}
 
     @staticmethod
     def _sav_tie(rng):
